@@ -34,14 +34,17 @@ struct St
   int depth_max;
   int npre;
   long pre_cut[24];
+  long soak_cut;   // >= 0: every pre-read beyond the first 24 is the document cut here (a long-lived process re-reading an incomplete file)
+  int pre_accepted;
+  int mid_reads;
   int pre_rejected;
 } *st;
 
 enum { F_SHORT = 0, F_FLIP, F_DROP, F_DUP, F_NUL, F_OPEN, F_TRUNC };
 const char *fault_names[] = {"short_read", "flipped_byte", "dropped_byte", "duplicated_byte", "nul_byte", "open_failure", "file_truncated", nullptr};
-enum { P_DOC = 0, P_RTERR, P_TREE_EQUAL, P_TRUNC_IN_STRING, P_TRUNC_IN_COMMENT, P_RAW_ACCEPTED, P_DEPTH_GE4, P_SHORT_READ_HIT, P_TRUNC_AFTER_BACKSLASH, P_PRE_GE8, P_BIG_FILE };
+enum { P_DOC = 0, P_RTERR, P_TREE_EQUAL, P_TRUNC_IN_STRING, P_TRUNC_IN_COMMENT, P_RAW_ACCEPTED, P_DEPTH_GE4, P_SHORT_READ_HIT, P_TRUNC_AFTER_BACKSLASH, P_PRE_GE8, P_BIG_FILE, P_SOAK, P_SOAK_ACCEPTED };
 const char *probe_names[] = {"returned_document", "threw_runtime_error", "tree_compared_equal", "truncated_inside_quoted_string",
-                             "truncated_inside_comment", "raw_bytes_accepted_as_document", "tree_depth_ge_4", "short_read_refused_bytes", "cut_right_after_a_backslash", "eight_or_more_rejected_reads_before_the_document", "file_of_64KiB_or_more", nullptr};
+                             "truncated_inside_comment", "raw_bytes_accepted_as_document", "tree_depth_ge_4", "short_read_refused_bytes", "cut_right_after_a_backslash", "eight_or_more_rejected_reads_before_the_document", "file_of_64KiB_or_more", "same_incomplete_copy_read_200_to_1600_times_first", "incomplete_copy_accepted_500_times_or_more", nullptr};
 
 const char IDCH1[] = "abcXYZ_";
 const char IDCH[] = "abcxyzABC019_.";
@@ -247,10 +250,28 @@ void do_plan(int tier)
   st->bytes = st->original;
   st->npre = 0;
   st->pre_rejected = 0;
+  st->pre_accepted = 0;
+  st->mid_reads = 0;
   if (st->mode == 0 && sim_plan(4) == 0) {
     st->npre = 1 + (int)sim_plan(20);
     for (int i = 0; i < st->npre; i++)
       st->pre_cut[i] = (long)sim_plan((uint32_t)text.size() + 1);
+  }
+  st->soak_cut = -1;
+  if (st->mode == 0 && text.size() < 4096 && sim_plan(48) == 0) {
+    // a long-lived process: the same incomplete copy (cut right after some tag, so that nodes are still open or the
+    // document is simply shorter) is read hundreds of times before the complete document
+    std::vector<long> after_tag;
+    for (size_t i = 0; i < text.size(); i++)
+      if (text[i] == '>')
+        after_tag.push_back((long)i + 1);
+    if (!after_tag.empty()) {
+      st->soak_cut = after_tag[sim_plan((uint32_t)after_tag.size())];
+      st->npre = 24 + 200 + (int)sim_plan(1400);
+      for (int i = 0; i < 24; i++)
+        st->pre_cut[i] = st->soak_cut;
+      sim_probe(P_SOAK);
+    }
   }
   if (st->mode == 1) {
     size_t n = st->bytes.size();
@@ -395,7 +416,7 @@ int a16_fault(long *arg)
   return st->fault;
 }
 int a16_pre_reads(void) { return st->npre; }
-long a16_pre_cut(int i) { return st->pre_cut[i]; }
+long a16_pre_cut(int i) { return i < 24 ? st->pre_cut[i] : st->soak_cut; }
 void a16_pre_outcome(int kind)
 {
   sim_event(1610 + (uint32_t)kind, 0, 0);
@@ -403,6 +424,21 @@ void a16_pre_outcome(int kind)
     sim_fail_nonfatal("C16:exception-other-than-runtime_error", "readXML threw something else than runtime_error for a truncated document");
   if (kind == 1 && ++st->pre_rejected == 8)
     sim_probe(P_PRE_GE8);
+  if (kind == 0 && ++st->pre_accepted == 500)
+    sim_probe(P_SOAK_ACCEPTED);
+}
+int a16_soak(void) { return st->soak_cut >= 0; }
+void a16_mid_outcome(int kind, const char *text)
+{
+  sim_event(1620 + (uint32_t)kind, 0, 0);
+  st->mid_reads++;
+  if (sim_failed())
+    return;
+  if (kind != 0)
+    sim_fail_nonfatal("C16:valid-document-rejected", "a document of the supported subset was rejected after %d reads of an incomplete copy and %d of itself: %s",
+                      st->pre_accepted + st->pre_rejected, st->mid_reads - 1, kind == 1 ? text : "(not a runtime_error)");
+  else if (st->expect_canon != text)
+    sim_fail_nonfatal("C16:tree-differs", "the tree returned for read %d of the same complete document differs from the generating tree", st->mid_reads);
 }
 void a16_outcome(int kind, const char *text)
 {
